@@ -294,6 +294,18 @@ Lemma tie_my_fileset_reload : TIE_my_fileset_reload =
    (0, "free(line)");
    (0, "fclose(fp)");
    (0, "qsort(entry_vec_data(new_entries),entry_vec_size(new_entries),sizeof(void*),cmp_fileset_entry)");
+   (0, "size_tn_uniq=0");
+   (0, "for(size_ti=0;i<entry_vec_size(new_entries);i++)");
+   (1, "structfileset_entry*prev");
+   (1, "ent=entry_vec_value(new_entries,i)");
+   (1, "prev=(n_uniq>0)?entry_vec_value(new_entries,n_uniq-1):NULL");
+   (1, "if(prev!=NULL&&strcmp(prev->fname,ent->fname)==0)");
+   (2, "if(ent->ptr!=prev->ptr&&fs->unload)fs->unload(fs,ent->fname,ent->ptr)");
+   (2, "free(ent->fname)");
+   (2, "free(ent)");
+   (1, "else");
+   (2, "entry_vec_data(new_entries)[n_uniq++]=ent");
+   (0, "entry_vec_clip(new_entries,n_uniq)");
    (0, "for(size_ti=0;i<entry_vec_size(fs->entries);i++)");
    (1, "ent=entry_vec_value(fs->entries,i)");
    (1, "assert(ent!=NULL)");
